@@ -94,6 +94,13 @@ pub enum EvalError {
 
     #[error("Duration is not valid for timeslice: {}", error)]
     InvalidDuration { error: String },
+
+    #[error("Cannot compute {} {} {}: out of range", left, op, right)]
+    OutOfRange {
+        left: String,
+        op: &'static str,
+        right: String,
+    },
 }
 
 pub trait Evaluate<T>: Send + Sync + Clone {
